@@ -8,7 +8,7 @@ from ..gen import G, I
 ID = "C07"
 LEVEL = "exploration"
 RULE = ("cases are a scene (module variables; factories whose locals are captured by the closures they return, singly, "
-        "as a list sharing one local, or nested two deep, or created inside an if / else / while / from block of a factory that shadows a captured variable with a same-named local, or over an OPTIONAL local that closures bump and reset to nil through `modify`; readers / setters / incrementers / shadowing bodies; higher-order "
+        "as a list sharing one local, or nested two deep, or created inside an if / else / while / from block of a factory that shadows a captured variable with a same-named local, or over an OPTIONAL local that closures bump and reset to nil through `modify`, or over a local holding a list / a function that `modify` replaces by an equal-looking new value; readers / setters / incrementers / shadowing bodies; higher-order "
         "callers that deliberately own locals with the same names as captured variables) plus a history of up to 12 steps "
         "(create instance, call closure directly / through an alias / through a list / through a higher-order function / "
         "inside a block, owner assignment, print, is_closure()); a print follows every step. Oracle = reference interpreter "
@@ -35,6 +35,10 @@ def body_for(kind, v, w=None, k=1):
         return ("fn", [("a", "int")], None, [("decl", v, None, V("a"), ("modify",))])
     if kind == "nested":
         return ("fn", [], FI, [("return", ("fn", [], "int", [("decl", v, None, ("bin", "+", V(v), I(k)), ("modify",)), ("return", V(v))]))])
+    if kind == "modthennest":
+        # the middle closure WRITES the captured variable and then creates an inner closure that reads (or writes) it
+        inner = ("fn", [], "int", [("return", V(v))]) if k % 2 else ("fn", [], "int", [("decl", v, None, ("bin", "+", V(v), I(1)), ("modify",)), ("return", V(v))])
+        return ("fn", [], FI, [("decl", v, None, ("bin", "+", V(v), I(10 * k)), ("modify",)), ("return", inner)])
     if kind == "pure":
         return ("fn", [], "int", [("return", I(40 + k))])
     if kind == "condinc":
@@ -95,7 +99,7 @@ def cases(draw):
         local = g.choice(mvars) if g.chance(30) else "c%d" % fi
         if local in mvars:
             g.label("factory-local-shadows-module-var")
-        shape = g.weighted([(3, "single"), (3, "pair"), (2, "nested"), (1, "mixed"), (3, "blockcreate"), (2, "elemwrite"), (2, "optstate")])
+        shape = g.weighted([(3, "single"), (3, "pair"), (2, "nested"), (1, "mixed"), (3, "blockcreate"), (2, "elemwrite"), (2, "optstate"), (2, "liststate"), (2, "fnstate")])
         if shape == "elemwrite":
             # a closure whose ONLY use of a captured list is as the target of an element assignment / op-assignment (and whose
             # only use of a captured int is as the index) must still capture them
@@ -132,6 +136,24 @@ def cases(draw):
                     ("decl", "out", ("list", FI), ("list", [V("fa"), V("fb")]), ()), ("return", V("out"))]
             facts.append((fname, "list"))
             stmts.append(("decl", fname, None, ("fn", [("init", "int")], ("list", FI), body), ()))
+            continue
+        if shape in ("liststate", "fnstate"):
+            # the captured variable holds a LIST / a FUNCTION and `modify` replaces it by a new value that compares equal to the old one
+            # (a fresh list with the same elements, a closure of the same function literal): the variable must hold the NEW value
+            if shape == "liststate":
+                body = [("decl", "items", ("list", "int"), ("list", [V("init")]), ()), ("decl", "keep", None, V("items"), ()),
+                        ("decl", "fa", None, ("fn", [], "int", [("decl", "fresh", ("list", "int"), ("list", [V("init")]), ()), ("decl", "items", None, V("fresh"), ("modify",)), ("return", I(0))]), ()),
+                        ("decl", "fb", None, ("fn", [], "int", [("expr", ("mcall", V("items"), "push", [I(7)])),
+                                                                 ("return", ("bin", "+", ("bin", "*", ("mcall", V("keep"), "len", []), I(100)), ("mcall", V("items"), "len", [])))]), ())]
+            else:
+                body = [("decl", "adder", None, ("fn", [("n", "int")], FI, [("return", ("fn", [], "int", [("return", ("bin", "+", V("n"), I(1000)))]))]), ()),
+                        ("decl", "strat", None, ("call", V("adder"), [V("init")]), ()),
+                        ("decl", "fa", None, ("fn", [], "int", [("decl", "strat", None, ("call", V("adder"), [("bin", "+", V("init"), I(5))]), ("modify",)), ("return", I(0))]), ()),
+                        ("decl", "fb", None, ("fn", [], "int", [("return", ("call", V("strat"), []))]), ())]
+            body += [("decl", "out", ("list", FI), ("list", [V("fa"), V("fb")]), ()), ("return", V("out"))]
+            facts.append((fname, "list"))
+            stmts.append(("decl", fname, None, ("fn", [("init", "int")], ("list", FI), body), ()))
+            g.label("feat:modify-with-an-equal-looking-value:" + shape)
             continue
         if shape == "blockcreate":
             # the factory captured a module variable AND owns a same-named local (local-copy idiom); the closure it returns is
@@ -171,7 +193,7 @@ def cases(draw):
             stmts.append(("decl", fname, None, ("fn", [("init", "int")], ("list", FI), body), ()))
             g.label("shared-local")
         elif shape == "nested":
-            body = [("decl", local, None, V("init"), ()), ("return", body_for("nested", local, k=g.int(1, 3)))]
+            body = [("decl", local, None, V("init"), ()), ("return", body_for(g.choice(["nested", "modthennest"]), local, k=g.int(1, 3)))]
             facts.append((fname, "nested"))
             stmts.append(("decl", fname, None, ("fn", [("init", "int")], ("fn", [], FI), body), ()))
             g.label("nested-2")
